@@ -167,6 +167,9 @@ func genScenario(rng *vk.Rand, v2 bool) *scenario {
 	sc.leaderPct = []float64{0.1, 0.1, 0.05, 0.25, 0.5, 0.123456}[rng.Intn(6)]
 	sc.protocolPct = []float64{0.1, 0.1, 0.01, 0.3, 0.07}[rng.Intn(5)]
 	sc.inflation = []float64{0.1084, 0.05, 0.01, 0.2, 0}[rng.Intn(5)] // 0: year 11+ of the production schedule, rewards are the fees only
+	if !v2 && sc.inflation == 0 {
+		sc.inflation = 0.1084 // the legacy creator was only ever active in year 1 of the schedule
+	}
 	sc.topUpFactor = []float64{0.25, 0.25, 0.5, 1.0, 0, 0.1}[rng.Intn(6)]
 	sc.gradient = big.NewInt(0).Mul(bi(int64(rng.Range(1, 3000000))), pow10([]int{18, 18, 12, 21}[rng.Intn(4)]))
 	sc.protocolAddr = addrInShard(rng, coord, uint32(rng.Intn(int(sc.nShards))))
@@ -236,6 +239,11 @@ func genScenario(rng *vk.Rand, v2 bool) *scenario {
 		}
 	}
 	allOnline := rng.Chance(1, 4)
+	// without inflation the fees are all there is; with tiny fees most per-node amounts are zero
+	tinyFees := sc.inflation == 0 && rng.Chance(1, 2)
+	if tinyFees {
+		sc.features = append(sc.features, "tiny-fees")
+	}
 	// legacy creator: half of the epochs have every selected validator active by V1's own rules
 	allActiveV1 := !v2 && rng.Chance(1, 2)
 	if allActiveV1 {
@@ -302,10 +310,12 @@ func genScenario(rng *vk.Rand, v2 bool) *scenario {
 				group = ng
 			}
 			var fee, dev *big.Int
-			switch rng.Intn(4) {
-			case 0:
+			switch x := rng.Intn(4); {
+			case tinyFees && x > 0:
+				fee = bi(int64(rng.Intn(25))) // a handful of wei: per-node amounts round down to zero
+			case x == 0:
 				fee = bi(0)
-			case 1:
+			case x == 1:
 				fee = bi(int64(rng.Range(1, 100000)))
 			default:
 				fee = randBig(rng, big.NewInt(0).Mul(bi(int64(rng.Range(1, 50))), pow10(15)))
@@ -445,7 +455,7 @@ func buildPipeline(sc *scenario, adb state.AccountsAdapter) (*pipeline, error) {
 	stats := metachain.NewEpochEconomicsStatistics()
 	econ, err := metachain.NewEndOfEpochEconomicsDataCreator(metachain.ArgsNewEpochEconomics{
 		Marshalizer: msh, Hasher: hsh, Store: store, ShardCoordinator: coord, RewardsHandler: rh,
-		RoundTime:   &esmock.RoundTimeDurationHandler{TimeDurationCalled: func() time.Duration { return 6 * time.Second }},
+		RoundTime:    &esmock.RoundTimeDurationHandler{TimeDurationCalled: func() time.Duration { return 6 * time.Second }},
 		GenesisEpoch: 0, GenesisNonce: 0, GenesisTotalSupply: sc.genesis, EconomicsDataNotified: stats, StakingV2EnableEpoch: stakingV2Epoch,
 	})
 	if err != nil {
@@ -488,6 +498,7 @@ func main() {
 	r.Rule("each case: 1..3 shards + metachain, consensus sizes 1..7, an epoch of 5..300 rounds with per-shard block counts (every round / few / random / a stalled shard); every block has a consensus group of the configured size drawn from the shard's eligible validators, an online leader, signers, a fee and a developer fee; validators: eligible (some offline the whole epoch, some leaving-but-active), waiting entries, reward addresses unique / shared inside and across shards / delegation contracts on the metachain / other metachain addresses; random top-up stakes (none, few wei, up to 1e23); leader/protocol percentages, inflation, top-up factor and gradient from small grids; rewards creator V2 (2 of 3 cases, epoch above the staking-v2 epoch) or the legacy V1. One evaluation = one created epoch checked. Non-trivial = at least two reward transactions; distinct = (creator, shards, sorted feature set, number of miniblocks).")
 	r.Assume("inputs are consistent as the property demands: validator statistics are derived block by block (sum NumSelectedInSuccessBlocks == blocks x consensus size, leaders' accumulated fees == per-block leader share of fee - developer fee), the economics values come from the real ComputeEndOfEpochEconomics over the same epoch (inputs it rejects are counted, not checked)",
 		"the protocol sustainability percentage is positive and the epoch has something to distribute (with inflation 0 and no fees at all the creator emits a zero-valued protocol transaction; such epochs are counted, not checked)",
+		"the legacy V1 creator runs with positive inflation only (it was replaced in year 1; with totals of a few wei its rounding compensation can push the protocol transaction below zero)",
 		"delegation contracts are accounts of a real AccountsDB holding the delegation marker key; the staking data provider is a stub fed with the generated top-ups")
 	r.MinShapes(40)
 	nCases := r.N(6000, 150000)
